@@ -489,3 +489,16 @@ pub enum VariantAttrsAfterDoc {
         u16,
     ),
 }
+
+// sorted_constructors orders the constructors by their names as strings (byte order), so upper-case letters sort before
+// lower-case ones: ABc < IO < Id < Zed < ab (names differing only in case would collide in the generated statics)
+#[derive(BinaryCodec)]
+#[sorted_constructors]
+#[allow(non_camel_case_types)]
+pub enum SortedCaseSensitive {
+    ab(u8),
+    Id(u8),
+    Zed,
+    IO { x: u8 },
+    ABc,
+}
